@@ -11,7 +11,7 @@ from .kernel import Violation
 
 # violation class -> property
 CLASS2PROP = {
-    "I-loc": "C16", "I-dup": "C16", "I-drain": "C16", "I-lostwake": "C16", "I-unknown": "C16",
+    "I-loc": "C16", "I-dup": "C16", "I-drain": "C16", "I-lostwake": "C16", "I-unknown": "C16", "I-zombie": "C16",
     "R-elig": "C17", "R-notdone": "C17", "R-order": "C17", "R-final": "C17", "R-wait": "C17",
     "R-idem": "C17", "R-count": "C17", "R-ttl": "C17", "R-snap": "C17", "R-timeout": "C17",
     "R-error": "C17",
@@ -96,7 +96,7 @@ class QsModel:
 
     # violation classes that are pure observations at a quiescent point: the model's state
     # stays right when they are only recorded, so a check that does not own them can go on
-    OBSERVATIONS = ("I-lostwake", "I-loc")
+    OBSERVATIONS = ("I-lostwake", "I-loc", "I-zombie")
 
     def _fail(self, cls, msg, **detail):
         if self.own is not None and cls in self.OBSERVATIONS and CLASS2PROP.get(cls) != self.own:
@@ -569,6 +569,14 @@ class QsModel:
                 j = min(elig, key=lambda j: j.key)
                 self._fail("I-lostwake", f"{conn} is blocked pulling {channels} while job {j.tag()} "
                            f"is unfinished and held by nobody", conn=conn, job=j.tag())
+        if self.sim is not None:
+            # a connection the client closed (EOF or reset) must be gone for the server, too:
+            # otherwise whatever it held is never re-queued
+            for cid, sock in self.sim.socks.items():
+                if sock.eof_sent and sock.epoch == self.sim.epoch and cid not in self.dead and sock.server_seen:
+                    held = [j.tag() for j in self.jobs.values() if j.state == "h" and j.holder == cid]
+                    self._fail("I-zombie", f"connection {cid} was closed by its client but the server never ended it"
+                               + (f"; it still 'holds' {held}" if held else ""), conn=cid)
         for conn, js in self.waits.items():
             if all(j.state == "d" for j in js):
                 self._fail("R-wait", f"{conn} still waits although {[j.tag() for j in js]} are all finished",
